@@ -369,6 +369,12 @@ pub fn builtin_avg(arr: Vec<f64>, onEmpty: Option<Thunk<Val>>) -> Result<Val> {
 
 #[builtin]
 pub fn builtin_remove_at(arr: ArrValue, at: i32) -> Result<ArrValue> {
+	if at < 0 || at as usize >= arr.len() {
+		return Ok(arr);
+	}
+	if at == i32::MAX {
+		bail!("removeAt index is too large");
+	}
 	let newArrLeft = arr.clone().slice(None, Some(at), None);
 	let newArrRight = arr.slice(Some(at + 1), None, None);
 
